@@ -151,3 +151,94 @@ Definition py_optnum_val (o : option float) : float := match o with Some x => x 
    translated and proved by C01's tie, PropsGen/C01gen.v); never raises *)
 Definition py_throughput_sum (k : list pyline) : list float :=
   map (fun col => f_round2 (f_sum col)) (zip_cols (map p_press (filter (fun l => negb (f_is_zero (p_tp l))) k))).
+
+(* ------------------------------------------------------------------ from the Python objects to Model/Report.v's inputs *)
+Definition flagset_of (l : list string) : flagset :=
+  {| fl_tp_unkwn := py_in_list "tp_unknown" l; fl_lt_unkwn := py_in_list "lt_unknown" l;
+     fl_not_bound := py_in_list "not_bound" l; fl_hidden_ld := py_in_list "hidden_load" l;
+     fl_ld := py_in_list "is_load_instruction" l; fl_has_ld := py_in_list "performs_load" l;
+     fl_has_st := py_in_list "performs_store" l |}.
+Definition used_of (x : pyline) : list string := flat_map (fun u => snd u) (p_uops x).
+Definition aline_of (x : pyline) : aline :=
+  {| l_num := p_num x; l_press := p_press x; l_used := used_of x; l_tp := p_tp x; l_lat_cp := p_lat_cp x;
+     l_flags := flagset_of (p_flags x); l_instr := p_mnemonic x |}.
+Definition cp_entry_of (x : pyline) : cp_entry := {| cp_num := p_num x; cp_lat := p_lat_cp x |}.
+Definition lcd_entry_of (e : pylcd) : lcd_entry :=
+  {| lcd_lat := pl_latency e; lcd_deps := map (fun '(x, lat) => (p_num x, lat)) (pl_deps e) |}.
+Definition analysis_of (ports : list string) (kernel cp : list pyline) (dep : list (string * pylcd)) (timed_out : bool) : analysis :=
+  {| a_ports := ports; a_kernel := map aline_of kernel; a_cp := map cp_entry_of cp;
+     a_lcd := map (fun p => lcd_entry_of (snd p)) dep; a_timed_out := timed_out |}.
+
+(* ------------------------------------------------------------------ the text of the combined view as a function of the
+   report STRUCTURE of Model/Report.v (rows of cells, summary row, warning count) and of layout-only data *)
+(* a shown cell is printed without a blank before the column separator when no decimals fit ('{:.1f}{} ' branch) *)
+Definition tight (plen : nat) (v : float) : bool := orb (plen - left_len v - 1 =? 0)%nat (negb (f_is_finite v)).
+Definition cell_text (c : cell) (t : bool) (plen : nat) (sep : string) : string :=
+  match c with
+  | Blank => spaces plen ++ " " ++ sep ++ " "
+  | Shown _ _ => render_cell c ++ (if t then "" else " ") ++ sep ++ " "
+  end.
+Fixpoint cells_text (cs : list cell) (ts : list bool) (plens : list nat) (seps : list string) : string :=
+  match cs, ts, plens, seps with
+  | c :: cs', t :: ts', n :: ns, s :: ss => cell_text c t n s ++ cells_text cs' ts' ns ss
+  | _, _, _, _ => ""
+  end.
+Fixpoint tights (plens : list nat) (vs : list float) : list bool :=
+  match plens, vs with n :: ns, v :: r => tight n v :: tights ns r | _, _ => [] end.
+Definition press_line (cs : list cell) (ts : list bool) (plens : list nat) (seps : list string) : string :=
+  py_slice_to_m1 (last seps "" ++ " " ++ cells_text cs ts plens seps).
+Definition cell_str (repr : float -> string) (o : option float) : string := match o with Some v => repr v | None => "" end.
+Definition lcdcp_text (repr : float -> string) (sep : string) (cp lcd : option float) : string :=
+  sep ++ " " ++ py_rjust 4 (cell_str repr cp) ++ " " ++ sep ++ " " ++ py_rjust 4 (cell_str repr lcd) ++ " " ++ sep.
+Definition line_text (x : pyline) : string := py_replace_char (ascii_of_nat 9) " " (py_strip (p_line x)).
+(* one table row: the model's row w of the line x *)
+Definition row_text (repr : float -> string) (plens : list nat) (seps : list string) (x : pyline) (w : row) : string :=
+  py_fmt_d 4 (r_num w) ++ " " ++ press_line (r_press w) (tights plens (p_press x)) plens seps
+  ++ lcdcp_text repr "|" (r_cp w) (r_lcd w) ++ " " ++ r_flags w ++ " " ++ line_text x ++ nl.
+Definition missing_text (n : nat) : string :=
+  "------------------ WARNING: The performance data for " ++ nat_string n ++ " instructions is missing.------------------" ++ nl
+  ++ "                     No final analysis is given. If you want to ignore this" ++ nl
+  ++ "                     warning and run the analysis anyway, start osaca with" ++ nl
+  ++ "                                       --ignore-unknown flag." ++ nl
+  ++ "------------------------------------------------------------------------------------------------"
+  ++ str_repeat "-" (String.length (nat_string n)) ++ nl.
+
+Definition dummy_line : pyline :=
+  {| p_num := 0; p_press := []; p_uops := []; p_flags := []; p_mnemonic := false; p_comment := false; p_line := "";
+     p_latency := 0; p_lat_cp := 0; p_lat_lcd := 0; p_tp := 0 |}.
+Fixpoint zip_with {A B C} (f : A -> B -> C) (a : list A) (b : list B) : list C :=
+  match a, b with x :: a', y :: b' => f x y :: zip_with f a' b' | _, _ => [] end.
+Definition sconcat (l : list string) : string := fold_right append "" l.
+
+(* title, centred headline, header line and rule: layout only (port_len, the last line number, the helper's port-name line) *)
+Definition cv_head (plens : list Z) (lastnum : Z) (port_names : string) : string :=
+  let sep0 := py_str_mul "-" (py_sum_Z (map (fun x => (x + 3)%Z) plens)) ++ "-"
+              ++ "--" ++ py_str_mul "-" (py_len_str (py_str_Z lastnum)) ++ py_str_mul "-" 13 ++ py_str_mul "-" 1 ++ "--" in
+  let port_line := "     " ++ port_names ++ "|" ++ py_center 6 "CP" ++ "|" ++ py_center 6 "LCD" ++ "|" in
+  nl ++ nl ++ "Combined Analysis Report" ++ nl ++ "------------------------" ++ nl
+  ++ py_center (py_len_str sep0) "Port pressure in cycles" ++ nl
+  ++ port_line ++ nl ++ py_str_mul "-" (py_len_str port_line) ++ nl.
+
+(* the summary row: the model's summary s; the CP total is printed as str(sum(...)) of the CP latencies *)
+Definition summary_text (repr : float -> string) (str_sum : list float -> string) (plens : list nat) (totals cp_lats : list float)
+                        (s : summary_row) : string :=
+  "     " ++ press_line (s_press s) (tights plens totals) plens (map (fun _ => " ") totals)
+  ++ " " ++ py_rjust 5 (str_sum cp_lats) ++ "  " ++ py_rjust 5 (repr (s_lcd s)) ++ "  " ++ nl.
+
+(* the whole combined view as a function of the model's report r (rows, summary, warning count) *)
+Definition cv_text (repr : float -> string) (str_sum : list float -> string) (seps : list string) (port_names : string)
+                   (a : analysis) (kernel : list pyline) (r : report) : string :=
+  cv_head (map Z.of_nat (port_lens a)) (p_num (last kernel dummy_line)) port_names
+  ++ sconcat (zip_with (row_text repr (port_lens a) seps) kernel (rows r)) ++ nl
+  ++ match summary r with
+     | Some s => summary_text repr str_sum (port_lens a) (tp_sum (a_kernel a)) (map cp_lat (a_cp a)) s
+     | None => missing_text (match w_missing (warns r) with Some n => n | None => 0%nat end)
+     end.
+
+(* ------------------------------------------------------------------ full_analysis_dict's modelled entries as Model/Report.v's dict *)
+Definition dline_of_py (d : pydline) : dline :=
+  {| d_num := pd_num d; d_press := map snd (pd_press d); d_lat_cp := pd_lat_cp d; d_lat_lcd := pd_lat_lcd d;
+     d_flags := flagset_of (pd_flags d); d_tp := pd_tp d |}.
+Definition ddict_of_py (d : pyddict) : ddict :=
+  {| dd_warnings := pdd_warnings d; dd_kernel := map dline_of_py (pdd_kernel d); dd_sum_press := map snd (pdd_sum_press d);
+     dd_cp := pdd_cp d; dd_lcd := pdd_lcd d |}.
